@@ -127,13 +127,16 @@ def shard_feff(ctx, arg):
     ctx.count("exhaustive_feff", hi - lo)
 
 
-def check_stream(ctx, dex, cm, buf, tag, budget):
-    """run the real sweep over arbitrary bytes under the step budget"""
-    size = len(buf) // 2
+def check_stream(ctx, dex, cm, buf, tag, budget, declared=None):
+    """run the real sweep over arbitrary bytes under the step budget. declared: the code size (in units) handed to the sweep when the buffer is LONGER
+    than the code (other bytes follow it): nothing yielded may reach past the declared end"""
+    size = len(buf) // 2 if declared is None else declared
     ctx.ev()
     ctx.count("hostile_buffers_swept")
+    if declared is not None:
+        ctx.count("hostile_buffers_longer_than_the_declared_code")
     out = []
-    wit = {"buffer": buf[:256].hex(), "len": len(buf), "kind": tag}
+    wit = {"buffer": buf[:256].hex(), "len": len(buf), "kind": tag, "declared_code_units": size}
 
     def body():
         idx = 0
@@ -238,6 +241,9 @@ def shard_hostile(ctx, arg):
                 b[p:p] = bytes(rng.randrange(256) for _ in range(rng.choice([1, 2, 3])))
             buf = bytes(b)
             tag = "mutated-" + mode
+        if k % 4 == 1 and len(buf) >= 4:
+            # the code is only the first part of the buffer (DCode / the sweep get the declared size): the bytes behind it are not code
+            check_stream(ctx, dex, cm, buf, tag + "+declared-size-smaller-than-buffer", budget(len(buf)), declared=rng.randrange(0, len(buf) // 2))
         out = check_stream(ctx, dex, cm, buf, tag, budget(len(buf)))
         if k % 3 == 0:
             # the same bytes through a DCode object asked several times (get_instructions is what EncodedMethod.get_instructions, get_raw,
